@@ -247,14 +247,14 @@ RdataItems(kind, n1, n2, k, cmp) ==
       [] kind = "TXT" -> <<<<"b", <<k % 1000>>>>, <<"z", k % 1000, 120 + (k \div 1000)>>>>
       [] OTHER -> <<<<"z", k, 170>>>>
 \* a script record r = [sec, name, kind, n1, n2, k, nrd, ttl, form] as a record set; form is
-\* "plain" or an RFC 2136 form; zc = zone class
+\* "plain" or an RFC 2136 form; zc = class of the zone (of the message, for plain records)
 MkRRset(r, cmp, zc) ==
     LET upd == r.form # "plain"
         empty == IF upd THEN FormEmpty(r.form) ELSE r.nrd = 0
         step == IF r.kind = "TXT" THEN 1000 ELSE IF r.kind = "BIG" THEN 0 ELSE 1
     IN [name |-> r.name,
         type |-> IF upd /\ FormAnyType(r.form) THEN TyANY ELSE KindType(r.kind),
-        cls |-> IF upd THEN FormCls(r.form, zc) ELSE ClsIN,
+        cls |-> IF upd THEN FormCls(r.form, zc) ELSE zc,
         ttl |-> IF upd /\ FormZeroTtl(r.form) THEN <<0, 0>> ELSE r.ttl,
         rds |-> IF empty THEN <<>>
                 ELSE [i \in 1..(IF r.nrd = 0 THEN 1 ELSE r.nrd) |-> RdataItems(r.kind, r.n1, r.n2, r.k + step * (i - 1), cmp)]]
